@@ -752,6 +752,10 @@ fn check_restore(ctx: &mut Ctx, snap: &ScopeSnap, d: &Dump, what: &str) {
             "C03",
             format!("{what}: entered at chunk {:?} pos {:#x} allocated {}, left at chunk {:?} pos {:#x} allocated {}", snap.cur, snap.pos, snap.allocated, d.cur, cur_pos(d, ctx.up), d.typed.allocated),
         );
+        if what == "scoped_aligned" && (d.cur != snap.cur || cur_pos(d, ctx.up) != snap.pos) {
+            // C18: after `scoped_aligned` returns (or unwinds) the position is exactly the entry position
+            ctx.oracle("C18", format!("scoped_aligned: entered at chunk {:?} pos {:#x}, left at chunk {:?} pos {:#x}", snap.cur, snap.pos, d.cur, cur_pos(d, ctx.up)));
+        }
     }
     if d.fwd.len() < snap.chunk_count {
         ctx.oracle("C03", format!("{what}: chunks were released while leaving the scope"));
